@@ -107,6 +107,12 @@ EFFECT_PRE = """
 int g = 0;
 int f(int x) { g += 1; write('f'); write(x); write(' '); return x + g; }
 byte q(int x) { write('q'); return (x + 65) is byte; }
+const int KM = 0 - 1;
+const int[] GT = [7, 8];
+string GS = "glob";
+int twice() { int[] t = [3, 4]; t[1] += 1; return t[1]; }
+int bump(int[] a) { a[0] += 1; return a[0]; }
+int loopsum() { int s = 0; for (int i = 0; i < 3; i += 1) { int[] t = [10, 20]; t[0] += i + 1; s += t[0]; byte[] u = ['a']; u[0] += 1; s += u[0]; } return s; }
 """
 # expressions part of which the compiler could evaluate in advance although another part has effects or can fault
 EFFECT_EXPRS = [
@@ -117,6 +123,10 @@ EFFECT_EXPRS = [
     '(true or (f(1) > 0)) is int', '(false and (f(1) > 0)) is int', '(0 / f(1))', '(f(1) % 1)', '(f(3) / 1)', '(1 / (f(1) - f(1) + 1 - 1 + z))',
     '(z * (7 / z))', '(0 * (7 / z))', '((7 / z) * 0)', '(f(1) ?? f(1))', '(5 ?? 5)', '(f(1) ?? 2)', '(2 ?? f(0))',
     '[f(1), 2].length + [f(2)].length', '(not ([f(1)] is bool)) is int',
+    # constant indices must be checked like run-time ones
+    '[1, 2, 3][-1]', '[1, 2, 3][0 - 1]', 'tab[-1]', 'tab[KM]', 'tab[3]', 'tab[KM + 4]', 'GT[-1]', 'GT[KM]', 'GT[2]', '"abc"[-1] is int', '"abc"[KM] is int', 'GS[KM] is int',
+    # a mutable literal with constant elements is a fresh array each time it is evaluated
+    'twice() + twice()', 'bump([5, 6]) + bump([5, 6])', 'loopsum()',
 ]
 
 
